@@ -305,6 +305,12 @@ def _pub_arg(case):
         return (x, _sint(case['y'])), None
     if enc == 'comp':
         raw = bytes([3 if case['odd'] else 2]) + x.to_bytes(32, 'big')
+    elif enc == 'comp_long':
+        # prefix of the compressed form in front of BOTH coordinates (65 bytes): not an encoding of anything
+        raw = bytes([3 if case['odd'] else 2]) + x.to_bytes(32, 'big') + _sint(case['y']).to_bytes(32, 'big')
+    elif enc == 'uncomp_short':
+        # prefix of the uncompressed form in front of the abscissa alone (33 bytes)
+        raw = b'\x04' + x.to_bytes(32, 'big')
     else:
         raw = b'\x04' + x.to_bytes(32, 'big') + _sint(case['y']).to_bytes(32, 'big')
     return (raw if form == 'bytes' else raw.hex()), raw
@@ -314,6 +320,8 @@ def _pub_point(case):
     """Reference verdict: the curve point this encoding denotes, or None."""
     from ref import ec
     x = _sint(case['x'])
+    if case['enc'] in ('comp_long', 'uncomp_short'):
+        return None
     if case['enc'] == 'comp':
         return ec.lift_x(x, bool(case['odd']))
     pt = (x, _sint(case['y']))
@@ -711,7 +719,16 @@ def strategies(ctx):
             y = p - y
         return {'x': _h(x), 'y': _h(y), 'odd': bool(y & 1), 'enc': enc, 'src': 'nonresidue_pseudo_root'}
 
+    def bad_shape(d, enc):
+        # a real point in an encoding whose prefix and length do not go together; (33 bytes ending in 01 are a private
+        # key with the compression marker: not this class)
+        pt = ec.pubkey(d)
+        if enc == 'uncomp_short' and pt[0] & 0xff == 1:
+            pt = ec.pubkey(d % (ec.N - 2) + 1 if d % (ec.N - 2) + 1 != d else 2)
+        return {'x': _h(pt[0]), 'y': _h(pt[1]), 'odd': bool(pt[1] & 1), 'enc': enc, 'src': 'prefix_length_mismatch'}
+
     pub_bad = st.one_of(
+        st.builds(bad_shape, gen.secrets(), st.sampled_from(['comp_long', 'uncomp_short'])),
         st.builds(bad_nonres_root, xs, st.booleans(), st.sampled_from(['uncomp', 'tuple'])),
         st.builds(bad_nonres, xs, st.booleans()),
         st.builds(bad_nonres, xs, st.booleans()),
